@@ -127,6 +127,7 @@ func c05Leaf(c *Ctx, r *Report, a *Anchors) {
 	// list resolver: appended values
 	lf := a.list
 	k := 0
+	perArm := map[string]int{}
 	for _, ci := range callsIn(lf) {
 		call, ok := ci.(*ssa.Call)
 		if !ok || !isBuiltinCall(call, "append") {
@@ -145,6 +146,8 @@ func c05Leaf(c *Ctx, r *Report, a *Anchors) {
 		}
 		for _, e := range elems {
 			k++
+			arm := armOf(call.Block())
+			perArm[arm]++
 			ls, _ := phiLeaves(e)
 			okAll := true
 			desc := ""
@@ -173,10 +176,10 @@ func c05Leaf(c *Ctx, r *Report, a *Anchors) {
 					desc = d
 				}
 			}
-			r.check("C05.LEAF", fmt.Sprintf("%s: list element #%d (%s)", fnName(lf), k, armOf(call.Block())), call.Pos(), okAll, "a list element is appended without coercion to the element type: "+desc)
+			r.check("C05.LEAF", fmt.Sprintf("%s: list element (%s) #%d", fnName(lf), arm, perArm[arm]), call.Pos(), okAll, "a list element is appended without coercion to the element type: "+desc)
 		}
 	}
-	r.floor("C05.LEAF", "values appended to result lists", k, 11)
+	r.floor("C05.LEAF", "values appended to result lists", k, 3)
 }
 
 func c05NilErr(c *Ctx, r *Report) {
